@@ -260,6 +260,8 @@ type event struct {
 	cok    bool
 	replyL chan int64
 	replyB chan bool
+	g      int           // multi mode: index of the task goroutine
+	goCh   chan struct{} // multi mode: release of a start-up / shutdown / registration park
 }
 
 type world struct {
@@ -274,6 +276,7 @@ type world struct {
 	trace   [][]int64
 	started int
 	deacts  int
+	recs    int
 
 	events  chan *event
 	abortCh chan struct{}
@@ -282,6 +285,14 @@ type world struct {
 	push    *blockchain.Push
 	pushKey string
 	lastKey string
+
+	// multi mode (reg.go): several task goroutines of the one name, each identified and
+	// parked at its start-up read, its rounds, its posts and its shutdown steps
+	multi       bool
+	gmu         sync.Mutex
+	gids        map[int64]int
+	logHook     bool // park at the "exceed 3 times" log call (status notRunning written, entry not yet deleted)
+	parkPersist int  // >0: park the next persisAndStart at its record store
 }
 
 func (w *world) logf(v ...int64) {
@@ -334,6 +345,9 @@ func (w *world) LoadBlockLastSequence() (int64, error) {
 		return l, nil
 	}
 	ev := &event{kind: evRound, t: time.Now(), replyL: make(chan int64, 1)}
+	if w.multi {
+		ev.g = w.gidx()
+	}
 	select {
 	case w.events <- ev:
 	case <-w.abortCh:
@@ -341,6 +355,9 @@ func (w *world) LoadBlockLastSequence() (int64, error) {
 	}
 	select {
 	case l := <-ev.replyL:
+		if l == replyErr {
+			return -1, errors.New("scripted sequence store failure")
+		}
 		return l, nil
 	case <-w.abortCh:
 		return w.latest(), nil
@@ -395,6 +412,9 @@ func (w *world) GetSequenceByHash(hash []byte) (int64, error) {
 
 // CommonStore (same conventions as BlockStore's generic interface)
 func (w *world) SetSync(key, value []byte) error {
+	if w.multi && string(key) == w.pushKey {
+		w.parkRecordStore()
+	}
 	w.mu.Lock()
 	defer w.mu.Unlock()
 	w.kv[string(key)] = append([]byte{}, value...)
@@ -405,6 +425,7 @@ func (w *world) SetSync(key, value []byte) error {
 			n.Data = -99
 		}
 		w.trace = append(w.trace, []int64{4, n.Data})
+		w.recs++
 	case w.pushKey:
 		var p types.PushWithStatus
 		if types.Decode(value, &p) != nil {
@@ -419,6 +440,28 @@ func (w *world) SetSync(key, value []byte) error {
 }
 func (w *world) Set(key, value []byte) error { return w.SetSync(key, value) }
 func (w *world) GetKey(key []byte) ([]byte, error) {
+	if w.multi && string(key) == w.lastKey && calledFrom(".runTask.func1") {
+		g := w.gidx()
+		w.park(&event{kind: evStart, g: g, goCh: make(chan struct{}, 1)})
+		// the read and its trace entry are one step
+		w.mu.Lock()
+		defer w.mu.Unlock()
+		v, ok := w.kv[string(key)]
+		val := int64(-1)
+		if ok {
+			var n types.Int64
+			if types.Decode(v, &n) == nil {
+				val = n.Data
+			} else {
+				val = -99
+			}
+		}
+		w.trace = append(w.trace, []int64{20, int64(g), val})
+		if !ok {
+			return nil, dbm.ErrNotFoundInDb
+		}
+		return v, nil
+	}
 	w.mu.Lock()
 	defer w.mu.Unlock()
 	v, ok := w.kv[string(key)]
@@ -544,6 +587,9 @@ func (w *world) decodePayload(sub *types.PushSubscribeReq, data []byte) (seqs []
 func (w *world) PostData(sub *types.PushSubscribeReq, data []byte, seq int64) error {
 	seqs, cok := w.decodePayload(sub, data)
 	ev := &event{kind: evPost, t: time.Now(), seqs: seqs, upd: seq, cok: cok, replyB: make(chan bool, 1)}
+	if w.multi {
+		ev.g = w.gidx()
+	}
 	select {
 	case w.events <- ev:
 	case <-w.abortCh:
@@ -1401,7 +1447,22 @@ func main() {
 		if err := hlib.ReplayInput(opts.Replay, &probe); err != nil {
 			panic(err)
 		}
-		if probe.Kind == "gpd" {
+		if probe.Kind == "race" {
+			var rr struct {
+				World Race `json:"world"`
+			}
+			if err := hlib.ReplayInput(opts.Replay, &rr); err != nil {
+				panic(err)
+			}
+			runRace(o, rr.World)
+		} else if probe.Kind == "reg" {
+			var h Reg
+			if err := hlib.ReplayInput(opts.Replay, &h); err != nil {
+				panic(err)
+			}
+			installLogHook()
+			runRegs(o, []Reg{h}, 1)
+		} else if probe.Kind == "gpd" {
 			var q Gpd
 			if err := hlib.ReplayInput(opts.Replay, &q); err != nil {
 				panic(err)
@@ -1420,6 +1481,15 @@ func main() {
 	mult := 1
 	if opts.Thorough() {
 		mult = 8
+	}
+	if opts.Extra == "reg" { // development aid: only the multi-goroutine histories
+		installLogHook()
+		runRegs(o, g.regs(mult), 96)
+		for _, h := range g.races(mult) {
+			runRace(o, h)
+		}
+		fmt.Fprintf(os.Stderr, "hC32: %d cases\n", o.Count())
+		return
 	}
 	// function-level cases first (small)
 	for _, q := range []Gpd{
@@ -1474,5 +1544,10 @@ func main() {
 	add(8*mult, "hist-receipt-big", 2, "big", 1)
 	par := 96
 	runHists(o, hs, par)
+	installLogHook()
+	runRegs(o, g.regs(mult), par)
+	for _, h := range g.races(mult) {
+		runRace(o, h)
+	}
 	fmt.Fprintf(os.Stderr, "hC32: %d cases\n", o.Count())
 }
